@@ -178,6 +178,12 @@ impl RtpsWriterProxy {
 
     // Iterate over all SequenceNumbers (indices) in the advertised range.
     for s in relevant_interval {
+      // An ACKNACK can request at most 256 sequence numbers, so there is no point in
+      // collecting more. This also bounds the work done for a HEARTBEAT that advertises
+      // an absurdly large range.
+      if missing_seqnums.len() >= 256 {
+        break;
+      }
       match known_head {
         None => missing_seqnums.push(s), // no known changes left => s is missing
         Some(known_sn) => {
